@@ -32,6 +32,10 @@ pub enum Base {
     AttrBlob(Vec<(String, GVal)>),
     /// raw bytes
     Raw(Vec<u8>, u8),
+    /// a well-formed XML document whose Properties hold elements of type names the reader does not
+    /// know: (type-name selector, property-name selector, nesting inside the element) per element -
+    /// the same unknown type may appear several times, in one Item or in several
+    XmlUnknownTypes(Vec<(u8, u8, u8)>, bool),
 }
 
 impl Base {
@@ -39,6 +43,13 @@ impl Base {
         match self {
             Base::OwnBinary(..) | Base::ForeignBinary(..) => Kind::Binary,
             Base::OwnXml(_) => Kind::XmlReadUnknown,
+            Base::XmlUnknownTypes(_, read_unknown) => {
+                if *read_unknown {
+                    Kind::XmlReadUnknown
+                } else {
+                    Kind::Xml
+                }
+            }
             Base::AttrBlob(_) => Kind::Attributes,
             Base::Raw(_, k) => match k % 4 {
                 0 => Kind::Binary,
@@ -69,6 +80,26 @@ impl Base {
             }
             Base::AttrBlob(e) => crate::spec::refattr::encode(e).map_err(|e| Fail::new("harness-encode", e.0)),
             Base::Raw(b, _) => Ok(b.clone()),
+            Base::XmlUnknownTypes(elems, _) => {
+                const TYPES: [&str; 6] = ["Wibble", "QFont", "SystemAddress", "Vector4", "int128", "ProtectedString2"];
+                let mut doc = String::from("<roblox version=\"4\">");
+                for (item, chunk) in elems.chunks(3).enumerate() {
+                    doc.push_str(&format!("<Item class=\"Folder\" referent=\"RBX{item}\"><Properties><string name=\"Name\">f{item}</string>"));
+                    for (t, p, nest) in chunk {
+                        let ty = TYPES[*t as usize % TYPES.len()];
+                        let inner = match nest % 4 {
+                            0 => "text".to_string(),
+                            1 => "<X>1</X><Y>2</Y>".to_string(),
+                            2 => String::new(),
+                            _ => format!("<{ty}>again</{ty}>"),
+                        };
+                        doc.push_str(&format!("<{ty} name=\"P{}\">{inner}</{ty}>", p % 4));
+                    }
+                    doc.push_str("<bool name=\"Archivable\">true</bool></Properties></Item>");
+                }
+                doc.push_str("</roblox>");
+                Ok(doc.into_bytes())
+            }
         }
     }
 }
@@ -101,6 +132,7 @@ pub fn base_strategy(max_nodes: usize) -> BoxedStrategy<Base> {
         4 => forest::forest(xml_profile(max_nodes, false, TextMode::Xml)).prop_map(Base::OwnXml),
         3 => attr,
         1 => (vals::bytes(200), any::<u8>()).prop_map(|(b, k)| Base::Raw(b, k)),
+        2 => (proptest::collection::vec((0u8..6, any::<u8>(), any::<u8>()), 1..8), any::<bool>()).prop_map(|(e, r)| Base::XmlUnknownTypes(e, r)),
         1 => (any::<u8>()).prop_map(|k| {
             // a bare valid header
             Base::Raw(refbin::header(0, 0), k & 0xfc)
